@@ -64,7 +64,12 @@ pub struct ErrView {
 /// all the well-formedness oracles on one rejected text
 pub fn check_error(text: &str, e: &ErrView, who: &str, st: &mut Stats) -> Result<(), Failure> {
     let case = || json!({"text": text, "rendered": e.rendered, "span": e.span.as_ref().map(|s| [s.start, s.end])});
-    if e.message.trim().is_empty() {
+    // the property quantifies over rejected *documents*; the single-value and key parsers are held to
+    // everything else (span, position, rendering) but a leftover-input error of theirs carries no text
+    let document_parser = !matches!(who, "Value::from_str" | "Key::from_str" | "Key::parse");
+    if e.message.trim().is_empty() && !document_parser {
+        st.class("value-or-key-error.empty-message");
+    } else if e.message.trim().is_empty() {
         // known finding F14: a line-level carriage return that is not followed by a line feed
         // (outside strings), reported either at the CR or right after it
         let f14 = e
@@ -142,6 +147,21 @@ pub fn views(text: &str) -> Vec<(&'static str, ErrView)> {
     out
 }
 
+/// the single-value and key parsers report errors through the same type
+pub fn value_views(text: &str) -> Vec<(&'static str, ErrView)> {
+    let mut out = vec![];
+    if let Err(e) = text.parse::<toml_edit::Value>() {
+        out.push(("Value::from_str", ErrView { message: e.message().to_string(), span: e.span(), rendered: e.to_string(), debug: format!("{e:?}") }));
+    }
+    if let Err(e) = text.parse::<toml_edit::Key>() {
+        out.push(("Key::from_str", ErrView { message: e.message().to_string(), span: e.span(), rendered: e.to_string(), debug: format!("{e:?}") }));
+    }
+    if let Err(e) = toml_edit::Key::parse(text) {
+        out.push(("Key::parse", ErrView { message: e.message().to_string(), span: e.span(), rendered: e.to_string(), debug: format!("{e:?}") }));
+    }
+    out
+}
+
 fn nontrivial(text: &str, p: usize) -> bool {
     if p == 0 {
         return false;
@@ -173,6 +193,16 @@ pub fn check_text(text: &str, st: &mut Stats) -> Result<bool, Failure> {
         check_error(text, v, who, st)?;
     }
     Ok(true)
+}
+
+/// a text as a single value / key (errors of Value::from_str, Key::from_str, Key::parse)
+pub fn check_value_text(text: &str, st: &mut Stats) -> Result<(), Failure> {
+    for (who, v) in &value_views(text) {
+        st.eval();
+        st.class("value-or-key-error");
+        check_error(text, v, who, st)?;
+    }
+    Ok(())
 }
 
 /// for the fuzz target: known findings listed in known_findings.json are tolerated (loaded once)
@@ -248,6 +278,13 @@ fn prop_invalid(t: &mut Tape, st: &mut Stats) -> Result<(), Failure> {
                 }
             }
             st.class("mutant");
+        }
+    }
+    // the last line's right-hand side as a stand-alone value, and its left-hand side as a key
+    if let Some(line) = text.lines().last() {
+        if let Some((k, v)) = line.split_once('=') {
+            check_value_text(v.trim(), st)?;
+            check_value_text(k.trim(), st)?;
         }
     }
     let rejected = check_text(&text, st)?;
@@ -523,7 +560,7 @@ pub fn run(args: Args) -> ! {
     finish_run(&mut rep, "invalid", run);
     let run = run_tape("C15.typed", &prop_typed, 2000, args.tier.pick(200_000, 3_000_000), args.seed, w);
     finish_run(&mut rep, "typed", run);
-    for c in ["eof-with-newline", "eof-without-newline", "at-multibyte", "fault-line", "stray-multibyte", "truncation", "mutant", "typed.string", "typed.integer", "typed.array", "typed.table", "typed.array-of-tables", "typed.datetime"] {
+    for c in ["eof-with-newline", "eof-without-newline", "at-multibyte", "fault-line", "stray-multibyte", "truncation", "mutant", "value-or-key-error", "typed.string", "typed.integer", "typed.array", "typed.table", "typed.array-of-tables", "typed.datetime"] {
         rep.require_class(c);
     }
     rep.finish()
